@@ -81,6 +81,8 @@ def fault_specs(tier):
                 out.append((s, "source-raises", where))
         for n in (0, 3, 7, 11) if tier == "quick" else range(0, 24, 2):
             out.append((s, "store-raises", n))
+        if s != "S3":
+            out.append((s, "store-raises", "final"))
         out.append((s, "prep-task-fails", 0))
         out.append((s, "worker-dies", 0))
         out.append((s, "cancel", 0))
@@ -256,6 +258,7 @@ def check_race(spec, ch, res):
         rc_holder["rc"] = rc
         return rc
 
+    total_requests = sum(t.clients * t.iterations for el in schedule for t in el if t.iterations)
     # metrics store of the driver fails on its n-th write
     m = s["metrics"]
     orig_put = m.InMemoryMetricsStore.put_value_cluster_level
@@ -265,7 +268,15 @@ def check_race(spec, ch, res):
             sim = s.get("sim")
             if sim is not None and sim.current_actor is not None and sim.actors[sim.current_actor].cls.__name__ == "DriverActor":
                 state["store_calls"] += 1
-                if state["store_calls"] == where + 1:
+                if where == "final":
+                    # the first write after every request of the schedule has been answered: the post-processing at the last join point
+                    from mc import fakees
+
+                    done = [e for e in fakees.CLUSTER.log if e.get("t_end") is not None and e["t_end"] <= CLOCK.now + 1e-9]
+                    hit = state["fault_time"] is None and len(done) >= total_requests
+                else:
+                    hit = state["store_calls"] == where + 1
+                if hit:
                     state["fault_time"] = CLOCK.now
                     raise RuntimeError("injected metrics store failure")
             return orig_put(self, *a, **k)
